@@ -48,6 +48,10 @@ var c01Corpus = []string{
 	"let a = 1\nlet b = 2\nlet t\n-a\nconsole.log(t, a)\n{ b }\nconsole.log(b)",
 	"function n() { return `p\nq` }\nconsole.log(n())",
 	"let i = 1\nlet s = `u\nv`\n++i\nconsole.log(s, i)",
+	// lexical corners where xjs reads the text differently from JavaScript (recorded findings)
+	"'use\\x20strict'; undeclared = 1; console.log(undeclared)",
+	"function q() { \"use\\u0020strict\"; undeclared2 = 2; return undeclared2 }\nconsole.log(q())",
+	"let n = 0\n// note\rn = 1\nconsole.log(n)",
 }
 
 func genC01(r *rng, n int, tier string) []string {
@@ -1229,6 +1233,8 @@ func stmtFirstChar(s ast.Statement) byte {
 type c01Traits struct {
 	asiHazard, nosemiElse, backtickBlank bool
 	newlineBacktick                      bool // a backtick string at the start of a line right after a complete expression
+	escapedDirective                     bool // "use strict" written with an escape in a directive prologue
+	terminatorInComment                  bool // lone CR / U+2028 / U+2029 inside a comment, text after it
 }
 
 // newlineBeforeBacktick: JavaScript continues `a<LF>`x“ as a tagged template (outside
@@ -1244,6 +1250,55 @@ func newlineBeforeBacktick(src string) bool {
 			case token.IDENT, token.RPAREN, token.RBRACKET, token.STRING, token.RAW_STRING, token.INT, token.FLOAT, token.TRUE, token.FALSE, token.NULL:
 				return true
 			}
+		}
+	}
+	return false
+}
+
+// escapedDirective: a string-literal statement in a directive prologue (start of the program or of
+// a function body) that is written with an escape sequence and whose VALUE is "use strict". For
+// JavaScript it is no directive (directives are recognised by their raw text); xjs decodes the
+// escape and prints "use strict", which is one.
+func escapedDirective(src string) bool {
+	toks := lexAll(src, len(src)+2)
+	starts := lineStarts(src)
+	for i, t := range toks {
+		if t.Type == token.EOF {
+			break
+		}
+		if t.Type != token.STRING || t.Literal != "use strict" {
+			continue
+		}
+		a, ok1 := offsetOf(src, starts, t.Start)
+		b, ok2 := offsetOf(src, starts, t.End)
+		if !ok1 || !ok2 || a > b || b > len(src) || !strings.Contains(src[a:b], "\\") {
+			continue
+		}
+		j := i - 1
+		for j >= 0 && (toks[j].Type == token.STRING || toks[j].Type == token.SEMICOLON) {
+			j--
+		}
+		if j < 0 || toks[j].Type == token.LBRACE {
+			return true
+		}
+	}
+	return false
+}
+
+// terminatorInComment: a lone CR, U+2028 or U+2029 inside a // comment followed by more text. For
+// JavaScript the comment ends there and the rest of the line is code; for xjs it is comment text
+// (dropped by the compact printer).
+func terminatorInComment(src string) bool {
+	for _, t := range lexAll(src, len(src)+2) {
+		for _, c := range t.LeadingComments {
+			for _, sep := range []string{"\r", "\u2028", "\u2029"} {
+				if i := strings.Index(c, sep); i >= 0 && strings.TrimSpace(c[i+len(sep):]) != "" {
+					return true
+				}
+			}
+		}
+		if t.Type == token.EOF {
+			break
 		}
 	}
 	return false
@@ -1289,6 +1344,10 @@ func c01Class(t c01Traits, cfg ccfg) string {
 	switch {
 	case t.newlineBacktick:
 		return "newline-before-backtick"
+	case t.escapedDirective:
+		return "escaped-use-strict-directive"
+	case !cfg.pretty && t.terminatorInComment:
+		return "line-terminator-in-comment"
 	case cfg.pretty && !cfg.semi && t.asiHazard:
 		return "nosemi-asi-hazard"
 	case cfg.pretty && !cfg.semi && t.nosemiElse:
@@ -1343,6 +1402,8 @@ func c01Eval(src string) (status string, ref nodeRun, fails []c01Fail) {
 	}
 	traits := c01TraitsOf(prog)
 	traits.newlineBacktick = newlineBeforeBacktick(src)
+	traits.escapedDirective = escapedDirective(src)
+	traits.terminatorInComment = terminatorInComment(src)
 	codes := []string{src}
 	byCode := map[string]int{}
 	cfgsOf := map[int][]string{}
